@@ -9,10 +9,24 @@ package files
 // or modifies something (os.Create, os.MkdirAll) carries the precondition
 // confined(fsroot, path); fsroot is the directory the call is allowed to write to.
 
-// opening an archive only reads (trusted: os.Stat, os.Open, zip.NewReader)
-//@ assumed func NewZipIterator(zipFile string) (ZipIterator, error)
-//@   ensures r1 == nil ==> r0 != nil
-// an archive is an arbitrary sequence of entries with arbitrary names
+// opening an archive only reads: NewZipIterator and the iterator's methods are verified - they make no file-system call
+// that creates or modifies anything (any such call would carry the obligation confined(fsroot, path), which nothing
+// here could discharge); os.Stat, os.Open, zip.NewReader, (*os.File).Close are assumed (read-only / release)
+//@ func NewZipIterator(zipFile string) (ZipIterator, error)
+//@   props C20
+//@   ensures r1 == nil ==> r0 != nil && typeIs(r0, *zipIterator) && cast(*zipIterator, r0).zr != nil && cast(*zipIterator, r0).idx == 0
+//@ func (zi *zipIterator) Next() *zip.File
+//@   props C20
+//@   requires zi != nil && zi.zr != nil && 0 <= zi.idx
+//@   modifies zi.idx
+//@   ensures old(zi.idx) >= len(zi.zr.File) ==> r0 == nil && zi.idx == old(zi.idx)
+//@   ensures old(zi.idx) < len(zi.zr.File) ==> r0 == zi.zr.File[old(zi.idx)] && zi.idx == old(zi.idx) + 1
+//@ func (zi *zipIterator) Close() error
+//@   props C20
+//@   requires zi != nil
+//@   modifies zi.f
+//@   ensures zi.f == nil
+// seen through the interface (UnzipToFolder): an archive is an arbitrary sequence of entries with arbitrary names
 //@ assumed func (zi ZipIterator) Next() *zip.File
 //@ assumed func (zi ZipIterator) Close() error
 
